@@ -510,6 +510,12 @@ func (ex *Exec) havocSpec(m string, env *SpecEnv, st *State, ct *Contract) {
 		panic(abortPath{fmt.Sprintf("contract %s: modifies %q: %v", ct.Fn, m, err)})
 	}
 	env.st = st
+	if n.Kind == "ident" {
+		if a, ok := env.addrs[n.Name]; ok {
+			ex.havocLeaves(st, a.T, a.V.(*Term))
+			return
+		}
+	}
 	switch n.Kind {
 	case "unary":
 		if n.Op != "*" {
@@ -656,6 +662,10 @@ func (ex *Exec) loopEnv(fr *Frame, b *ssa.BasicBlock, st *State, old *State) *Sp
 				continue
 			}
 			env.vars[name] = TV{V: st.Load(pt.Elem(), val.(*Term)), T: pt.Elem()}
+			if env.addrs == nil {
+				env.addrs = map[string]TV{}
+			}
+			env.addrs[name] = TV{V: val, T: pt.Elem()}
 		} else {
 			env.vars[name] = TV{V: val, T: t}
 		}
@@ -669,6 +679,27 @@ func (ex *Exec) loopEnv(fr *Frame, b *ssa.BasicBlock, st *State, old *State) *Sp
 			if v, ok := fr.regs[phi]; ok {
 				env.vars[phi.Comment] = TV{V: v, T: phi.Type()}
 			}
+		}
+	}
+	// stack-allocated locals (struct variables whose fields are addressed) that were not referenced yet
+	for _, al := range fn.Locals {
+		if al.Comment == "" {
+			continue
+		}
+		if _, known := env.addrs[al.Comment]; known {
+			continue
+		}
+		val, ok := fr.regs[al]
+		if !ok {
+			continue
+		}
+		pt := al.Type().Underlying().(*types.Pointer)
+		if env.addrs == nil {
+			env.addrs = map[string]TV{}
+		}
+		env.addrs[al.Comment] = TV{V: val, T: pt.Elem()}
+		if _, ok := env.vars[al.Comment]; !ok {
+			env.vars[al.Comment] = TV{V: st.Load(pt.Elem(), val.(*Term)), T: pt.Elem()}
 		}
 	}
 	return env
